@@ -17,10 +17,11 @@ VARIABLES slots,       \* [1..NSlots -> value]
           reg,         \* backward rename registry of the (single) process
           taint,       \* [1..NSlots -> [u, s, h]]: words that entered the slot's value through
                        \* unsafe / safe channels; h: some argument was not regular text
-          procs        \* processes built from different versions of the code (C17):
+          procs,       \* processes built from different versions of the code (C17):
                        \* [migs: proc -> rename registry, tys: proc -> linked types, own: slot -> proc]
+          gor          \* goroutines observing a shared value (C18): [g -> [op, slot]] ("" = idle)
 
-sysvars == <<slots, net, reg, taint, procs>>
+sysvars == <<slots, net, reg, taint, procs, gor>>
 
 Step(op, dst, src, s, a, parts, n, known) ==
   [op |-> op, dst |-> dst, src |-> src, s |-> s, a |-> a, parts |-> parts, n |-> n, known |-> known]
@@ -321,7 +322,7 @@ DoMig(st) ==
   LET r == MigApply(st, slots, procs) IN
   /\ st.op \in MigOps /\ r.ok
   /\ slots' = r.sl /\ procs' = r.pr
-  /\ UNCHANGED <<net, reg, taint>>
+  /\ UNCHANGED <<net, reg, taint, gor>>
 
 \* what the harness observes of slot i in its owner process
 MigObs(i, sl, pr) ==
@@ -329,19 +330,48 @@ MigObs(i, sl, pr) ==
   [ty |-> v.ty, fam |-> FamIn(v, p, pr),
    is |-> [j \in 1..NSlots |-> IF pr.own[j] = p /\ ~IsNil(sl[j]) THEN B2S(IsIn(v, sl[j], p, pr)) ELSE "-"]]
 
+---------------------------------------------------------------------------
+(* Concurrent read-only use of a shared value (C18).  A goroutine begins an  *)
+(* observer operation on a slot and later ends it; between the two it        *)
+(* overlaps with whatever the other goroutines do.  Observers never change   *)
+(* the value, and an operation's result is a function of the value alone.    *)
+
+NGor == 3
+Idle == [g \in 1..NGor |-> [op |-> "", slot |-> 0]]
+ObserverOps == {"error", "fmtV", "fmtPlusV", "redactV", "redactPlusV", "encode", "isSelf", "isOther", "as",
+                "safeDetails", "hints", "report"}
+ConcOps == {"CBegin", "CEnd", "CStorm"}
+
+\* st.n: goroutine (CStorm: number of goroutines); st.s[1]: operation; st.src[1]: shared slot
+ConcApply(st, sl, gr) ==
+  CASE st.op = "CBegin" ->
+         [gr |-> [gr EXCEPT ![st.n] = [op |-> st.s[1], slot |-> st.src[1]]],
+          ok |-> st.n \in 1..NGor /\ gr[st.n].op = "" /\ st.s[1] \in ObserverOps /\ ~IsNil(sl[st.src[1]])]
+    [] st.op = "CEnd" ->
+         [gr |-> [gr EXCEPT ![st.n] = [op |-> "", slot |-> 0]], ok |-> st.n \in 1..NGor /\ gr[st.n].op # ""]
+    [] st.op = "CStorm" ->
+         [gr |-> gr, ok |-> gr = Idle /\ ~IsNil(sl[st.src[1]])]
+
+DoConc(st) ==
+  LET r == ConcApply(st, slots, gor) IN
+  /\ st.op \in ConcOps /\ r.ok
+  /\ gor' = r.gr
+  /\ UNCHANGED <<slots, net, reg, taint, procs>>      \* observers never mutate
+
 Init ==
   /\ slots = [i \in 1..NSlots |-> Nil]
   /\ net = <<>>
   /\ reg = <<>>
   /\ taint = [i \in 1..NSlots |-> NoTaint]
   /\ procs = NoProcs
+  /\ gor = Idle
 
 \* the one action schema: perform step st
 Do(st) ==
   /\ Enabled(st, slots)
   /\ slots' = [slots EXCEPT ![st.dst] = Build(st, slots, reg)]
   /\ taint' = [taint EXCEPT ![st.dst] = TaintOf(st, slots, taint, Build(st, slots, reg))]
-  /\ UNCHANGED <<net, reg, procs>>
+  /\ UNCHANGED <<net, reg, procs, gor>>
 
 ---------------------------------------------------------------------------
 (* The projection Obs(v): what the harness records from the real value.    *)
